@@ -193,7 +193,7 @@ func refGenerated(p string) bool {
 var (
 	gfPrefixes = []string{"", ".", "/", "./", "..", "a/", "//", "../", ".//", "/./"}
 	gfNames    = []string{".datamon", ".conflicts", ".checkpoints", ".datamonx", "x.datamon", ".Conflicts", "datamon", ".conflict", ".checkpoint", ".checkpointss", ".DATAMON"}
-	gfSuffixes = []string{"", "/", "/x", "x", "/x/y", ".yaml", "/.datamon", " ", "\n", "/\n", "//x"}
+	gfSuffixes = []string{"", "/", "/x", "x", "/x/y", ".yaml", "/.datamon", " ", "\n", "/\n", "//x", ".bak", "-old/x", "~", " 2020/x", ".json"}
 )
 
 // isKnownDotDot: the input class of finding knownDotConflicts: "." glued in front of .conflicts / .checkpoints
